@@ -64,11 +64,8 @@ def extract(repo):
     if not m:
         raise ValueError("pre-check `switch( c )` not found")
     null_chars = re.findall(r"case\s*'(.)'", m.group(1))
-    pre = body[m.end():]
-    k = pre.find("switch( attrBaseType )", pre.find("switch( attrBaseType )") + 1)
-    if k < 0:
-        raise ValueError("end of pre-check block not found")
-    pre = pre[:k]
+    # the pre-check block = the body of that switch up to its closing brace
+    pre = _body(body, m.group(0)[:m.group(0).index("{")])
     # `if( Nullable() ) { [ _error.severity( X ); ] } else if( !strict [ && c == '$' ] ) {`
     m = re.search(r"if\s*\(\s*Nullable\(\)\s*\)\s*\{\s*(?:_error\.severity\(\s*(SEVERITY_\w+)\s*\)\s*;\s*)?\}\s*"
                   r"else\s+if\s*\(\s*!strict\s*(&&\s*c\s*==\s*'(.)'\s*)?\)\s*\{", pre)
@@ -82,6 +79,20 @@ def extract(repo):
         raise ValueError("consumption of the null character not found")
     consumed_char = dm.group(1)
     lenient = pre[m.end():]
+    # which accessor the filler switch dispatches on: `switch( X )` with X = NonRefType() / Type() directly, or a local
+    # initialised from one of them before the pre-check
+    dm2 = re.search(r"switch\s*\(\s*(\w+)\s*(\(\s*\))?\s*\)\s*\{\s*case\s+\w+_TYPE", lenient)
+    if not dm2:
+        raise ValueError("filler switch not found")
+    if dm2.group(2):
+        dispatch = dm2.group(1)
+    else:
+        im = re.search(r"PrimitiveType\s+" + dm2.group(1) + r"\s*=\s*(\w+)\(\)\s*;", body[:body.find(pre[:40])])
+        if not im:
+            raise ValueError(f"initialisation of {dm2.group(1)} before the pre-check not found")
+        dispatch = im.group(1)
+    if dispatch not in ("NonRefType", "Type", "BaseType"):
+        raise ValueError(f"filler switch dispatches on unknown accessor {dispatch}")
     cases, errvar = [], "err"
     for cm in re.finditer(r"case\s+(\w+)_TYPE\s*:\s*\{\s*(\w+)\s*=\s*\"((?:[^\"\\]|\\.)*)\"\s*;\s*([^}]*?)break\s*;\s*\}", lenient):
         kind, var, filler, action = cm.group(1), cm.group(2), cm.group(3), cm.group(4).strip()
@@ -180,6 +191,8 @@ def extract(repo):
     L.append(f"def sevNullableOverride : Option Sev := {'none' if sev_nullable is None else '(some ' + _sev(sev_nullable) + ')'}")
     L.append("/-- lenient substitution only when the value is this character; `none` = for every null character (also an absent value) -/")
     L.append("def lenientOnlyFor : Option Char := " + ("none" if lenient_char is None else f"(some '{lenient_char}')"))
+    L.append("/-- accessor of STEPattribute the filler switch dispatches on (`Type()` is REFERENCE_TYPE for a defined type declared on another defined type) -/")
+    L.append(f"def fillerDispatch : String := {_lean_str(dispatch)}")
     L.append(f"def sevFillerFailThreshold : Sev := {_sev(fail_thr)}")
     L.append(f"def sevFillerFail : Sev := {_sev(sev_fail)}")
     L.append(f"def sevFillerOk : Sev := {_sev(sev_ok)}")
